@@ -307,6 +307,126 @@ theorem C07_entries_bounded_by_active (d : Data) (A : List Key) (hd : NodupKeys 
     simp only [List.length_cons]
     omega
 
+/-! ### over an unbounded history -/
+
+/-- the store after a sequence of operations -/
+def finalStore (st : AnyStore) : List SOp → AnyStore
+  | [] => st
+  | op :: rest => finalStore (applyOp AnyStore.ops st op).1 rest
+
+theorem finalStore_nodup (st : AnyStore) (hd : NodupKeys st.data) (ops : List SOp) :
+    NodupKeys (finalStore st ops).data := by
+  induction ops generalizing st with
+  | nil => exact hd
+  | cons op rest ih => exact ih _ (applyOp_nodup st hd op)
+
+/-- is the write that comes next, at time `now`, a guaranteed cleanup point of this store?
+    (interval elapsed / operation budget reached / N-th write; the abstract map has none) -/
+def AnyStore.cleanupDue : AnyStore → Int → Prop
+  | .amap _, _ => False
+  | .periodic s, now => now ≥ s.nextCleanup
+  | .adaptive s, now => now ≥ s.nextCleanup ∨ s.opsSince + 1 ≥ s.maxOps
+  | .prob s, _ => 1 ≤ s.modulus ∧ (s.opsCount + 1) % s.modulus = 0
+
+/-- what a write at a cleanup point leaves behind: the entry written, and entries of the OLD table
+    whose lifetime has not passed -/
+theorem survivors_after_write (d : Data) (now : Int) (k : Key) (r : Data × Bool × Bool)
+    (hr : r = (sweep d now).cas k o n ttl now ∨ r = (sweep d now).setnx k v ttl now) :
+    ∀ e ∈ r.1, e.key = k ∨ (e.exp > now ∧ e ∈ d) := by
+  intro e he
+  have hsw : ∀ e ∈ sweep d now, e.exp > now ∧ e ∈ d := fun _ h => mem_sweep h
+  rcases hr with hr | hr
+  · subst hr
+    unfold Data.cas at he
+    split at he
+    · split at he
+      · exact Or.inr (hsw e he)
+      · split at he
+        · simp only [Data.insert, List.mem_cons] at he
+          rcases he with he | he
+          · subst he; exact Or.inl rfl
+          · exact Or.inr (hsw e (mem_erase he))
+        · exact Or.inr (hsw e he)
+    · exact Or.inr (hsw e he)
+  · subst hr
+    unfold Data.setnx at he
+    split at he
+    · split at he
+      · exact Or.inr (hsw e he)
+      · simp only [Data.insert, List.mem_cons] at he
+        rcases he with he | he
+        · subst he; exact Or.inl rfl
+        · exact Or.inr (hsw e (mem_erase he))
+    · simp only [Data.insert, List.mem_cons] at he
+      rcases he with he | he
+      · subst he; exact Or.inl rfl
+      · exact Or.inr (hsw e (mem_erase he))
+
+/-- one write (`set_if_not_exists` or `compare_and_swap`) at a guaranteed cleanup point of any of the
+    three stores -/
+theorem cleanup_point_survivors (st : AnyStore) (now : Int) (hdue : st.cleanupDue now) (k : Key)
+    (a b ttl : Int) :
+    (∀ e ∈ (AnyStore.ops.setnx st k a ttl now).1.data, e.key = k ∨ (e.exp > now ∧ e ∈ st.data)) ∧
+    (∀ e ∈ (AnyStore.ops.cas st k a b ttl now).1.data, e.key = k ∨ (e.exp > now ∧ e ∈ st.data)) := by
+  cases st with
+  | amap s => exact absurd hdue (by simp [AnyStore.cleanupDue])
+  | periodic s =>
+    have hs := (C07_guaranteed_trigger_periodic s now hdue).1
+    constructor
+    · simp only [AnyStore.ops, AnyStore.data, Periodic.ops, hs]
+      exact survivors_after_write (o := 0) (n := 0) s.data now k _ (Or.inr rfl)
+    · simp only [AnyStore.ops, AnyStore.data, Periodic.ops, hs]
+      exact survivors_after_write (v := 0) s.data now k _ (Or.inl rfl)
+  | adaptive s =>
+    have hs := (C07_guaranteed_trigger_adaptive s now hdue).1
+    constructor
+    · simp only [AnyStore.ops, AnyStore.data, Adaptive.ops, hs]
+      exact survivors_after_write (o := 0) (n := 0) s.data now k _ (Or.inr rfl)
+    · simp only [AnyStore.ops, AnyStore.data, Adaptive.ops, hs]
+      exact survivors_after_write (v := 0) s.data now k _ (Or.inl rfl)
+  | prob s =>
+    have hs := C07_guaranteed_trigger_probabilistic s now hdue.1 hdue.2
+    constructor
+    · simp only [AnyStore.ops, AnyStore.data, Prob.ops, hs]
+      exact survivors_after_write (o := 0) (n := 0) s.data now k _ (Or.inr rfl)
+    · simp only [AnyStore.ops, AnyStore.data, Prob.ops, hs]
+      exact survivors_after_write (v := 0) s.data now k _ (Or.inl rfl)
+
+/-- **bounded over an unbounded history**: start from any store without duplicate keys (e.g. an empty
+    one), run ANY sequence of operations - any number of keys ever seen, any times - and let the next
+    write, at time `now` on key `k`, fall on a guaranteed cleanup point.  If `A` lists the keys that
+    still matter (the key being written and every key whose stored state has not yet expired at `now`)
+    the table holds at most `|A|` entries afterwards: physical size follows the ACTIVE set, not the
+    history.  Holds for `set_if_not_exists` and for `compare_and_swap` writes on all three stores. -/
+theorem C07_bounded_over_history (st0 : AnyStore) (hd0 : NodupKeys st0.data) (ops : List SOp)
+    (now : Int) (k : Key) (a b ttl : Int) (A : List Key)
+    (hdue : (finalStore st0 ops).cleanupDue now)
+    (hk : k ∈ A)
+    (hA : ∀ e ∈ (finalStore st0 ops).data, e.exp > now → e.key ∈ A) :
+    (AnyStore.ops.setnx (finalStore st0 ops) k a ttl now).1.data.length ≤ A.length ∧
+    (AnyStore.ops.cas (finalStore st0 ops) k a b ttl now).1.data.length ≤ A.length := by
+  have hd := finalStore_nodup st0 hd0 ops
+  have hsv := cleanup_point_survivors (finalStore st0 ops) now hdue k a b ttl
+  constructor
+  · apply C07_entries_bounded_by_active _ A (anyStore_setnx_nodup _ hd k a ttl now)
+    intro e he
+    rcases hsv.1 e he with h | ⟨h1, h2⟩
+    · exact h ▸ hk
+    · exact hA e h2 h1
+  · apply C07_entries_bounded_by_active _ A (anyStore_cas_nodup _ hd k a b ttl now)
+    intro e he
+    rcases hsv.2 e he with h | ⟨h1, h2⟩
+    · exact h ▸ hk
+    · exact hA e h2 h1
+
+/-- non-vacuity: 5 writes of fresh keys with 10 ns lifetimes on a periodic store (interval 50), then a
+    write at the cleanup instant: one key active, one entry held -/
+def exHist : AnyStore := finalStore (.periodic ⟨[], 50, 50, 0⟩)
+  [.setnx "a" 1 10 0, .setnx "b" 1 10 1, .setnx "c" 1 10 2, .setnx "d" 1 10 3, .setnx "e" 1 10 4]
+
+example : exHist.data.length = 5 ∧ (60 : Int) ≥ 50 ∧
+    (AnyStore.ops.setnx exHist "f" 1 10 60).1.data.length = 1 := by decide
+
 /-! non-vacuity: a periodic store holding two expired and one live entry, written at its cleanup instant -/
 example : (Periodic.ops.setnx ⟨[⟨"a", 1, 5⟩, ⟨"b", 2, 100⟩, ⟨"c", 3, 9⟩], 10, 60, 0⟩ "n" 7 30 10).1.data
     = [⟨"n", 7, 40⟩, ⟨"b", 2, 100⟩] := by decide
